@@ -124,4 +124,68 @@ theorem file_term_ord_or_next {V} (L : Nat) (m : Assoc V) (hs : SortedMap m) (f 
     simp only [Option.bind_some, haddr, hat, frame_slice ps id _ hpget, readBlocks_one _ hp1 hp2]
     rw [hskip id _ _ hpget hbget, decodeBlockKeys_encode _ hinc, build_firstOrd_ordStart L m id _ hbget]
 
+/-- `Dictionary::get` on the bytes of a whole written file (several blocks), for every FST meeting
+the stated contract and every value codec (`vals` decodes the value block of a payload): equals
+the operation of the block model -/
+theorem file_get {V} (L : Nat) (m : Assoc V) (hs : SortedMap m) (f : FstIndex)
+    (hf : FstContract f) (hkeys : f.keys = (build L m).blocks.map (·.sep))
+    (hmulti : (build L m).single = false)
+    (skip : List UInt8 → List UInt8) (vals : List UInt8 → List V) (ps : List (List UInt8))
+    (hlen : ps.length = (build L m).blocks.length)
+    (hskip : ∀ (i : Nat) p b, ps[i]? = some p → (build L m).blocks[i]? = some b →
+      skip p = encodeBlockKeys (keys b.entries) ∧ vals p = b.entries.map (·.2))
+    (hpsz : ∀ p ∈ ps, p ≠ [] ∧ p.length + 1 < 4294967296)
+    (hok : WriterStoreOk (frameAddrs (keyBlocks (build L m)) ps))
+    (fst : List UInt8) (numTerms version : Nat)
+    (hfst0 : fst.length ≠ 0) (hfst : fst.length < 18446744073709551616)
+    (hdata : (frameBlocks ps).length < 18446744073709551616)
+    (hn : numTerms < 18446744073709551616) (hv : version < 4294967296) (k : Key) :
+    fileGet f.geFirst skip vals
+        (openFile (finishFile (frameBlocks ps)
+          (fst ++ storeBytes (writerStore (frameAddrs (keyBlocks (build L m)) ps)) ++ u64enc fst.length)
+          numTerms version)) k
+      = some ((build L m).get k) := by
+  have hcount : (frameAddrs (keyBlocks (build L m)) ps).length = (build L m).blocks.length := by
+    rw [frameAddrs_length]; simp [keyBlocks]
+  have hblk := file_block_for_key L m f hf hkeys hmulti (frameAddrs (keyBlocks (build L m)) ps)
+    (frameAddrs_chained _ _) hok hcount (frameBlocks ps) fst numTerms version hfst0 hfst hdata hn hv k
+  have hopen := openFile_finish (frameBlocks ps)
+    (fst ++ storeBytes (writerStore (frameAddrs (keyBlocks (build L m)) ps)) ++ u64enc fst.length)
+    numTerms version hdata hn hv
+  rw [hopen] at hblk ⊢
+  unfold fileGet
+  rw [hblk]
+  unfold Dict.get
+  cases hl : (build L m).locateKey k with
+  | none => simp
+  | some id =>
+    have hid : id < (build L m).blocks.length := by
+      unfold Dict.locateKey at hl
+      simp only [hmulti, Bool.false_eq_true, if_false] at hl
+      exact findIdx?_lt _ _ _ hl
+    have hbget : (build L m).blocks[id]? = some (build L m).blocks[id] := List.getElem?_eq_getElem hid
+    have hat : (build L m).blockAt id = some (build L m).blocks[id] := by
+      unfold Dict.blockAt
+      simp [hmulti, hbget]
+    have hkl : (keyBlocks (build L m)).length = (build L m).blocks.length := by simp [keyBlocks]
+    have haddr : (frameAddrs (keyBlocks (build L m)) ps)[id]?
+        = some ⟨ordStart (keyBlocks (build L m)) id, frameStart ps id, frameStart ps (id + 1)⟩ := by
+      unfold frameAddrs
+      rw [List.getElem?_map, List.getElem?_range (by rw [hkl]; exact hid)]
+      rfl
+    have hpget : ps[id]? = some ps[id] := List.getElem?_eq_getElem (by rw [hlen]; exact hid)
+    obtain ⟨hp1, hp2⟩ := hpsz _ (List.mem_of_getElem? hpget)
+    have hinc : StrictInc (keys (build L m).blocks[id].entries) := by
+      have hall : ∀ b ∈ keyBlocks (build L m), StrictInc b :=
+        strictInc_of_mem_flatten (by rw [keyBlocks_flatten]; exact hs)
+      apply hall
+      unfold keyBlocks
+      exact List.mem_map.mpr ⟨_, List.getElem_mem hid, rfl⟩
+    simp only [Option.bind_some, haddr, hat, frame_slice ps id _ hpget, readBlocks_one _ hp1 hp2]
+    rw [(hskip id _ _ hpget hbget).1, (hskip id _ _ hpget hbget).2, decodeBlockKeys_encode _ hinc]
+    congr 1
+    cases scanOrNext (keys (build L m).blocks[id].entries) k 0 with
+    | exact i => simp [List.getElem?_map]
+    | next _ => rfl
+
 end TantivyModel.SSTable
